@@ -1823,3 +1823,20 @@ Proof.
   destruct (run_ops x1 ops w1) as [[rs2 x2] w2]. cbn [fst] in *.
   constructor; [exact P | exact IH].
 Qed.
+
+(* C08_exposed in the form used by props/C08.v: any history on a fresh connection *)
+Theorem run_ops_exposed_new : forall (r : role) (part : bytes) (cfg : config) (x : ctx),
+  ctx_new r part cfg = Some x ->
+  forall (ops : list op) (w : world),
+  Forall (fun p => match fst p with
+                   | ResMsg (ROk (MText s)) => valid_utf8 s
+                   | ResMsg (ROk (MClose (Some (_, reason)))) => valid_utf8 reason
+                   | _ => True
+                   end) (fst (fst (run_ops x ops w))).
+Proof.
+  intros r part cfg x Hx ops w.
+  destruct (run_ops x ops w) as [[rs x'] w'] eqn:E.
+  destruct (run_ops_exposed ops x w rs x' w' (ctx_new_wf _ _ _ _ Hx) E) as [_ F].
+  cbn [fst]. revert F. apply Forall_impl. intros [o n] H. cbn [fst] in *.
+  destruct o as [[m|e|s|]|u|b]; try exact I. destruct m as [t|t|t|t|[[c reason]|]|g]; try exact I; exact H.
+Qed.
